@@ -107,8 +107,15 @@ def h_scoped(n: int, k0: int, k1: int, k2: int, k3: int, a0: int, a1: int, a2: i
                                 Wa.bad("scoped_iter:ended-inner-handle-still-yields(%s)" % meth)
                             except StopAsyncIteration:
                                 pass
+                    if hasattr(inner, "athrow"):
+                        try:
+                            await inner.athrow(Fault("thrown-into-dead-handle"))
+                        except (StopAsyncIteration, Fault):
+                            pass
                     if st.pos != pos0:
                         Wa.bad("scoped_iter:ended-inner-handle-advances-underlying")
+                    if st.closed:
+                        Wa.bad("scoped_iter:ended-inner-handle-closes-underlying")
                 # the outer handle still works after the inner scope ended
                 try:
                     res_a.append(("outer", [await A.anext(it)]))
